@@ -121,6 +121,9 @@ void harness(void) {
 	KSI_List *chain = NULL; size_t n = nondet_size(), i, cnt = 0, legacy = 0; int haveOut = nondet_bool(), haveAggr = nondet_bool(); long live0; int res;
 	size_t ref_c[HC_LINKS], ref_s[HC_LINKS];
 	if (n > HC_LINKS) return;
+#ifdef HC_EXACT
+	if (n != HC_LINKS) return;      /* one chain length per job (shorter chains: the job with the smaller HC_LINKS) */
+#endif
 	g_live = 11; g_hc_hash_freed = 0; g_hc_md_freed = 0;
 	legacy_os.ctx = CTX; legacy_os.ref = 1000; legacy_os.data = legacy_raw; legacy_os.data_len = sizeof(legacy_raw);
 	if (KSI_List_new(NULL, &chain) != KSI_OK) return;       /* the links are statics of the harness: no destructor */
@@ -149,7 +152,7 @@ void harness(void) {
 		__CPROVER_assert(out == &sentinel && g_live == live0, "getIdentity failed: receiver untouched, nothing allocated by the call survives");
 		for (i = 0; i < HC_LINKS; i++) if (i < n && kind[i] == 2)
 			__CPROVER_assert(lk[i].metaData->clientId->ref == ref_c[i] && (lk[i].metaData->sequenceNr == NULL || lk[i].metaData->sequenceNr->ref == ref_s[i]), "getIdentity failed: no reference to a meta-data field is kept");
-		if (res == KSI_OUT_OF_MEMORY && g_alloc_failed == 1 && cnt == 2) REACH("getIdentity: one allocation failed with two identities to build");
+		if (res == KSI_OUT_OF_MEMORY && g_alloc_failed == 1 && cnt == HC_LINKS) REACH("getIdentity: one allocation failed with every link carrying an identity");
 	} else {
 		struct ql_impl *im; size_t k = 0;
 		__CPROVER_assert(out != &sentinel && out != NULL, "getIdentity ok: a list");
@@ -166,7 +169,11 @@ void harness(void) {
 					id->sequenceNr == lk[i].metaData->sequenceNr && (id->sequenceNr == NULL || id->sequenceNr->ref == ref_s[i] + 1) && id->requestTime == NULL,
 					"getIdentity ok: meta-data identity shares the element's fields, one reference more each");
 		}
+#if HC_LINKS >= 2
 		if (cnt == 2 && kind[0] != kind[1]) REACH("two identities of different kind, in reverse chain order");
+#else
+		if (cnt == 1) REACH("one identity");
+#endif
 		KSI_HashChainLinkIdentityList_free(out);
 		__CPROVER_assert(g_live == live0, "getIdentity: releasing the result frees every block the call allocated");
 		for (i = 0; i < HC_LINKS; i++) if (i < n && kind[i] == 2)
